@@ -49,6 +49,8 @@ func discharge(dir string, qs []*Query, timeout time.Duration) []Verdict {
 		switch q.Text {
 		case "":
 			out[i] = Verdict{Q: q, Result: "unsat", Backend: "syntactic"}
+		case "FALSE":
+			out[i] = Verdict{Q: q, Result: "sat", Backend: "syntactic", Raw: "goal is literally false on this path: " + q.Goal}
 		case "BROKEN":
 			out[i] = Verdict{Q: q, Result: "not-generable", Backend: "none", Raw: q.Goal}
 		default:
